@@ -239,7 +239,7 @@ EXCEPTIONS = {
 }
 
 
-def run(ctx, report):
+def _run_rules(ctx, report):
     for config in ctx.configs:
         facts = ctx.facts(config)
         report.guard("C13.FANOUT", F.check_family, ctx, report, "C13.FANOUT", facts, config, (F.SETUP, F.DISPOSE))
@@ -262,3 +262,10 @@ def run(ctx, report):
         report.floor("C13.COMPOSE.DERIVE", "derive expansions (setup composition)", n, 19, config="probe")
     except Exception as e:
         report.ob("C13.COMPOSE.DERIVE", "EXTRACT", False, "probe crate could not be analysed: %s" % str(e)[-300:])
+
+
+def run(ctx, report):
+    _run_rules(ctx, report)
+    from .. import shared as _S
+    for config in ctx.configs:
+        report.guard("C13.ENCAPSULATED", _S.encapsulated, ctx, report, "C13.ENCAPSULATED", ctx.facts(config), config, "C13")
